@@ -61,6 +61,7 @@ def main():
     ap.add_argument("--repo", required=True); ap.add_argument("--verif", default=os.path.dirname(os.path.dirname(HERE)))
     ap.add_argument("--mode", default="fast"); ap.add_argument("--tests", action="store_true")     # mode: fast | check | none
     ap.add_argument("--only", default=""); ap.add_argument("--out", default="")
+    ap.add_argument("--checks", default="")                   # run these checks instead of the ones listed in INDEX.md (e.g. C20)
     ap.add_argument("--set", default="")                      # "negative": tools/rewrites/negative/ (every entry must be reported)
     a = ap.parse_args()
     if a.set: HERE = os.path.join(BASE, a.set)
@@ -75,6 +76,7 @@ def main():
     for num, fn, checks in corpus():
         if only and num not in only: continue
         t0 = time.time()
+        if a.checks: checks = a.checks.split(",")
         r = {"patch": fn, "checks": checks}
         rc, out = sh("patch -p1 --no-backup-if-mismatch < %s" % os.path.join(HERE, fn), cwd=repo)
         if rc != 0:
